@@ -4,8 +4,8 @@ Require Import HT TEL TELext DecP PrefixSpec CoreRun PrefixImpl.
 (* For a program whose rules have past-only bodies and present-only heads (parts initial/always/dynamic), every
    temporal stable model over the trace of length h+2, cut to its first h+1 states, is a temporal stable model over
    the trace of length h+1. *)
-Theorem C17_prefix_closed : forall (A : Type) (P : list (rule A)), (forall r, In r P -> wf A r) ->
-  forall (h : nat) (T : trace A), tsm A P (S h) T -> tsm A P h T.
+Theorem C17_prefix_closed : forall (A : Type) (P : list (PrefixSpec.rule A)), (forall r, In r P -> PrefixSpec.wf A r) ->
+  forall (h : nat) (T : trace A), PrefixSpec.tsm A P (S h) T -> PrefixSpec.tsm A P h T.
 Proof. exact C17_spec. Qed.
 (* past-only formulas do not read the length of the trace *)
 Theorem C17_past_ignores_horizon : forall (A : Type) (h h' : nat) (H T : trace A) (p : tf A), past_only A p = true ->
